@@ -739,10 +739,16 @@ def _hierarchical_names(ctx, nm):
         if kind == "same name twice in one module":
             return [sig(0, [("top", 0), ("fifo", 0), ("level", 0)]), sig(1, [("top", 0), ("fifo", 0), ("level", 1)]),
                     sig(2, [("top", 0), ("fifo", 0), ("din", 0)])]
+        if kind == "signal named like a sibling module":
+            # one back-trace is a strict prefix of another: `foo` the signal next to `foo` the sub-module holding `bar`
+            return [sig(0, [("top", 0), ("foo", 0)]), sig(1, [("top", 0), ("foo", 1), ("bar", 0)]), sig(2, [("top", 0), ("baz", 0)])]
+        if kind == "chain of prefixes":
+            return [sig(0, [("top", 0), ("a", 0)]), sig(1, [("top", 0), ("a", 1), ("b", 0)]), sig(2, [("top", 0), ("a", 1), ("b", 1), ("c", 0)])]
         if kind == "numbered leaves":
             return [sig(i, [("top", 0), ("port", i)]) for i in range(4)] + [sig(4, [("top", 0), ("clk", 0)])]
         return [sig(0, [("top", 0), ("x", 0)])]
-    for kind in ("two cores", "three cores, nested banks", "same name twice in one module", "numbered leaves", "single signal"):
+    for kind in ("two cores", "three cores, nested banks", "same name twice in one module", "signal named like a sibling module", "chain of prefixes",
+                 "numbered leaves", "single signal"):
         names = []
         for f in (lambda k: k, lambda k: 3 * k + 4, lambda k: k * k + 17):
             sigs = design(kind, f)
@@ -757,6 +763,8 @@ def _hierarchical_names(ctx, nm):
             bad = f"the naming pass does not return a name for every signal: {names[0]}"
         elif len(set(names[0])) != len(names[0]):
             bad = f"names are not pairwise distinct: {names[0]}"
+        elif any(not re.fullmatch(r"[A-Za-z_][A-Za-z0-9_$]*", x) for x in names[0]):
+            bad = f"not every name is a legal identifier: {names[0]}"
         elif names[1] != names[0] or names[2] != names[0]:
             other = names[1] if names[1] != names[0] else names[2]
             bad = f"tracer numbers 0, 1, 2, .. give {names[0]}; the same design with larger numbers in the same order gives {other}: the " \
